@@ -59,9 +59,11 @@ theorem Done.mono {s s' : VS α} {j : Nat} (h : Done C s j) (m : Mono s s') : Do
 
 def Evaluable (j : Nat) : Prop := ∃ v, C.g j (D C f) = .ok v
 
-/-- an exception of class `e` has a cause: some formula raises, and `e` is its class or the class it has after
-    travelling through a dependant -/
-def Raises (e : Fail) : Prop := ∃ j env e', C.g j env = .error e' ∧ (e = e' ∨ e = e'.nested)
+/-- an exception of class `e` reported at node `i` has a cause at or below `i`: a formula `j` reachable from `i`
+    (`j = i` included) raises on the values some state of the cell map gives its precedents, and `e` is the class of
+    that exception or the class it has after travelling through a dependant -/
+def Raises (i : Nat) (e : Fail) : Prop :=
+  ∃ j s e', Reach C.wb i j ∧ C.wb.kind j ≠ .input ∧ C.g j (valueOf C s) = .error e' ∧ (e = e' ∨ e = e'.nested)
 
 variable {C f Bad}
 
@@ -81,12 +83,16 @@ theorem valueOf_eq_D {s : VS α} (hg : Good C f Bad s) {j : Nat} (hd : Done C s 
         · exact h
         · exact absurd h hb
 
-theorem Raises.nested {e : Fail} (h : Raises C e) : Raises C e.nested := by
-  obtain ⟨j, env, e', hj, he⟩ := h
-  refine ⟨j, env, e', hj, .inr ?_⟩
+theorem Raises.nested {i : Nat} {e : Fail} (h : Raises C i e) : Raises C i e.nested := by
+  obtain ⟨j, s, e', hr, hk, hj, he⟩ := h
+  refine ⟨j, s, e', hr, hk, hj, .inr ?_⟩
   rcases he with he | he <;> subst he
   · rfl
   · cases e' <;> rfl
+
+theorem Raises.lift {a i : Nat} {e : Fail} (hai : Reach C.wb a i) (h : Raises C i e) : Raises C a e := by
+  obtain ⟨j, s, e', hr, hk, hj, he⟩ := h
+  exact ⟨j, s, e', hai.trans hr, hk, hj, he⟩
 
 theorem seqM_none {σ : Type} (step : Nat → σ → Option Fail × σ) (s : σ) : seqM step [] s = (none, s) := rfl
 
@@ -99,7 +105,7 @@ structure EvalSpec (C : Cfg α) (f : Nat → (Nat → α) → α) (Bad : Nat →
   exact : r.1 = none → C.wb.kind i ≠ .input → s.cache i = none →
           (∀ j, j ∈ C.wb.deps i → ¬ Bad j) → r.2.cache i = some (D C f i)
   ok : (∀ m, Reach C.wb i m → Evaluable C f m) → (∀ m, Reach C.wb i m → m ≠ i → ¬ Bad m) → r.1 = none
-  fail : ∀ e, r.1 = some e → Raises C e
+  fail : ∀ e, r.1 = some e → Raises C i e
 
 structure SeqSpec (C : Cfg α) (f : Nat → (Nat → α) → α) (Bad : Nat → Prop) (l : List Nat)
     (s : VS α) (r : Option Fail × VS α) : Prop where
@@ -107,7 +113,7 @@ structure SeqSpec (C : Cfg α) (f : Nat → (Nat → α) → α) (Bad : Nat → 
   mono : Mono s r.2
   done : r.1 = none → ∀ j, j ∈ l → Done C r.2 j
   ok : (∀ j, j ∈ l → (∀ m, Reach C.wb j m → Evaluable C f m) ∧ (∀ m, Reach C.wb j m → ¬ Bad m)) → r.1 = none
-  fail : ∀ e, r.1 = some e → Raises C e
+  fail : ∀ e, r.1 = some e → ∃ k, k ∈ l ∧ Raises C k e
 
 /-- `seqM` over steps that satisfy `EvalSpec` -/
 theorem seq_spec (step : Nat → VS α → Option Fail × VS α) (ok : Nat → Prop)
@@ -128,14 +134,17 @@ theorem seq_spec (step : Nat → VS α → Option Fail × VS α) (ok : Nat → P
       rw [hr] at h1
       cases r1 with
       | some e =>
-        refine ⟨h1.good, h1.mono, fun h => (nomatch h), ?_, h1.fail⟩
+        refine ⟨h1.good, h1.mono, fun h => (nomatch h), ?_,
+          fun e' he' => ⟨j, List.mem_cons_self .., h1.fail e' he'⟩⟩
         intro hall
         have hj := hall j (List.mem_cons_self ..)
         have := h1.ok hj.1 (fun m hm _ => hj.2 m hm)
         cases this
       | none =>
         have h2 := ih s1 (fun k hk => hlt k (List.mem_cons_of_mem _ hk)) h1.good
-        refine ⟨h2.good, h1.mono.trans h2.mono, ?_, ?_, h2.fail⟩
+        refine ⟨h2.good, h1.mono.trans h2.mono, ?_, ?_, fun e' he' => by
+          obtain ⟨k, hk, hr⟩ := h2.fail e' he'
+          exact ⟨k, List.mem_cons_of_mem _ hk, hr⟩⟩
         · intro hn k hk
           rcases List.mem_cons.1 hk with rfl | hk
           · exact (h1.done rfl).mono C h2.mono
@@ -172,7 +181,10 @@ theorem evalX_spec (hwf : WF C.wb) (hl : Local C.wb f) (hlg : LocalG C) (hag : A
           cases r1 with
           | some e =>
             refine ⟨hs.good, hs.mono, fun h => (nomatch h), fun h => (nomatch h), ?_,
-              fun e'' he'' => by cases he''; exact (hs.fail e rfl).nested⟩
+              fun e'' he'' => by
+                cases he''
+                obtain ⟨k, hk, hr⟩ := hs.fail e rfl
+                exact (hr.lift (.step hk (.refl k))).nested⟩
             intro hev hnb
             have := hs.ok (fun j hj => ⟨fun m hm => hev m (.step hj hm), fun m hm => hnb m (.step hj hm) (by
               have := hm.le hwf; have := hwf.lt i j hj; omega)⟩)
@@ -197,7 +209,7 @@ theorem evalX_spec (hwf : WF C.wb) (hl : Local C.wb f) (hlg : LocalG C) (hag : A
                 cases hgv
               · intro e' he'
                 cases he'
-                exact ⟨i, _, e, hgv, .inl rfl⟩
+                exact ⟨i, s1, e, .refl i, hki, hgv, .inl rfl⟩
             | ok v =>
               have hvD : (∀ j, j ∈ C.wb.deps i → ¬ Bad j) → v = D C f i := by
                 intro hnb
@@ -338,7 +350,7 @@ structure GenSpec (C : Cfg α) (f : Nat → (Nat → α) → α) (Bad : Nat → 
           ∀ v, C.stored m = some v → r.2.cache m = some v
   ok : (∀ m, Reach C.wb a m → Evaluable C f m) →
        (∀ r, Reach C.wb a r → C.wb.kind r = .range → ∀ m, Reach C.wb r m → ¬ Bad m) → r.1 = none
-  fail : ∀ e, r.1 = some e → Raises C e
+  fail : ∀ e, r.1 = some e → Raises C a e
 
 /-- the stored results agree with the formulas, except possibly at tainted nodes -/
 def StoredAgree (C : Cfg α) (f : Nat → (Nat → α) → α) (Bad : Nat → Prop) : Prop :=
@@ -377,7 +389,9 @@ theorem genGraph_spec {f : Nat → (Nat → α) → α} {Bad : Nat → Prop}
     (fun j s' _ hg' => evalX_spec hwf hl hlg hag hup (j+1) j s' (Nat.lt_succ_self j) hg')
     newR s1 (fun _ _ => trivial) hg1
   generalize seqM (fun r => evalX C (r+1) r) newR s1 = res at hs
-  refine ⟨hs.good, ?_, ?_, ?_, ?_, hs.fail⟩
+  refine ⟨hs.good, ?_, ?_, ?_, ?_, fun e he => by
+    obtain ⟨k, hk, hr⟩ := hs.fail e he
+    exact hr.lift (hnew k hk).2⟩
   · rw [hs.mono.1]; exact hba
   · intro m hb
     have h1 := hm.old m hb
